@@ -8,6 +8,15 @@ TRUST = ("Trusted base: rustc/std, the sha2 crate, the simulator (its PRNG, CBOR
          "against the model writer). Sampled, not exhaustive, unless the evidence says exhaustive for a sub-space; bounds are in the evidence file.")
 
 CHECKS = {
+ "C17": ("exploration", "§10 C17",
+   "Salting operations (add_salt, add_salt_with_len around 8, add_salt_in_range with lower bounds around 8, add_assertion_salted true/false) on envelopes of serialized size 1 B - 10 KB (padding steers sizes across the rule's 64/160/320-byte switch points), every draw coming from the simulator-owned library RNG stream, plus hostile boundary draws through add_salt_using. Oracles: subject and prior assertions unchanged, exactly one 'salt' assertion of documented length, short requests refused, salted assertion found by predicate and carrying exactly one salt, independent saltings differ in digest, unsalted add deterministic.",
+   "deterministic simulation over the library RNG seam (seeded stream + boundary draws)"),
+ "C18": ("exploration", "§10 C18",
+   "Client parties build expressions, requests (dates stamped from the simulated clock: absent, integral, fractional, negative), responses (success, default-OK, failure, early failure) and events, send them through the transport; server parties parse directly and from bytes, with and without expected function. In-flight single mutations: add a result/error, remove it, retag the subject, replace the function. Oracles: parsed value equals the original, documented shape, listed malformations rejected.",
+   "deterministic client/server simulation with simulated clock and single structural mutations in flight"),
+ "C19": ("exploration", "§10 C19",
+   "Vendors contribute attachments (payloads of any shape from seeded histories, vendor, optional conformsTo) and types to replicas in different orders with duplicates; readers query all / by vendor / by conformsTo / both and the single-result form; one attachment assertion is altered in flight (vendor removed, duplicated, not text; payload unwrapped; conformsTo duplicated). Oracles: result set equals the model's distinct (payload digest, vendor, conformsTo) triples filtered the same way; single-result errors for none/several; malformed reported invalid; type checks true exactly for added types.",
+   "deterministic simulation of contribution orders and malformed-in-flight attachments vs. set model"),
  "C01": ("exploration", "§10 C01",
    "Seeded search over operation histories (3-30 ops: construct, add/remove/replace, wrap, obscure with every action, decrypt/uncompress, encode->decode) executed in lock-step against an independent model that computes every digest from the draft's rules with sha2; every position, accessor and walk order compared after every step.",
    "deterministic simulation of seeded operation histories vs. executable reference model (spec digests)"),
